@@ -9,6 +9,8 @@ import (
 	"reflect"
 	"strconv"
 	"strings"
+	"sync"
+	"sync/atomic"
 
 	"github.com/mattn/anko/env"
 
@@ -416,23 +418,28 @@ func init() {
 	wk.Register(&wk.Engine{
 		ID: "C05",
 		Plan: func(tier string) fw.Plan {
-			nRand := 300
+			nRand, nConc := 300, 8
 			if tier == "thorough" {
-				nRand = 100000
+				nRand, nConc = 100000, 400
 			}
 			return fw.Plan{
 				Level: "exploration",
 				Rule: "phase enum: every operator of {+ - * / % & | << >> == != < <= > >=} on ALL ordered pairs of the int64/float64 boundary pools (complete enumeration), " +
 					"operands supplied as literals and as variables; unary - ^ on the pool; string +/* tables; cache-transparency identities for every i in -3..4098. " +
-					"phase trees: PRNG-generated expression trees (depth<=4) evaluated natively in Go. An evaluation is non-trivial when the native reference is inside the property's stated domain; distinct = distinct (source, bindings).",
+					"phase trees: PRNG-generated expression trees (depth<=4, fully parenthesised) and unparenthesised chains of one precedence level (x op c1 op c2 ..., string/float/int first operand, literal and variable operands) evaluated natively in Go as the left fold. phase concurrent (race build): 8 independent interpreters (own environment each) evaluate integer operator chains at the same time, every result handed to a host probe that recomputes it natively (results of different interpreters are chosen congruent modulo 256 and 4096 and outside the small-value range); no race report allowed. An evaluation is non-trivial when the native reference is inside the property's stated domain; distinct = distinct (source, bindings).",
 				Assumptions: []string{"Go's own int64/float64 arithmetic, strconv and fmt are the reference", "operands outside the statement (bool/nil, float operands of % & | << >>, n*string) are not judged"},
 				Phases: []fw.Phase{
 					{Name: "enum", Cases: nEnum + 3, Chunk: 60, Exhaust: true, TimeoutS: 600},
 					{Name: "trees", Cases: nRand, Chunk: 100, TimeoutS: 900},
+					{Name: "concurrent", Race: true, Cases: nConc, Chunk: 4, TimeoutS: 900, Jobs: 4},
 				},
 			}
 		},
 		Run: func(c *wk.Case) {
+			if c.Phase == "concurrent" {
+				c05Concurrent(c)
+				return
+			}
 			e := ank.NewCoreEnv()
 			if c.Phase == "enum" {
 				switch {
@@ -594,6 +601,170 @@ func init() {
 					c.Sample(map[string]interface{}{"src": sb.String(), "defs": renderDefs(defs), "native": c05Want(want)})
 				}
 			}
+			// unparenthesised chains of one precedence level: x op c1 op c2 ... is the
+			// left fold, step by step (no regrouping of the constants)
+			for k := 0; k < 25; k++ {
+				c05Chain(c, e, k)
+			}
 		},
 	})
+}
+
+var c05ChainFixed = []string{"\"a\" + 1 + 2", "\"s\" + 4095 + 1", "9007199254740992.0 + 1 + 1", "0.1 + 1 - 1", "1e16 - 1 - 1", "1e16 + 1 + 1 + 1 + 1",
+	"\"\" + 1 - 1", "\"x\" * 2 * 2", "7 / 2 * 2", "7 * 2 / 4", "9223372036854775807 + 1 - 1", "1.5 + 9223372036854775807 - 9223372036854775807"}
+
+func c05Chain(c *wk.Case, e *env.Env, k int) {
+	r := c.Rng
+	defs := map[string]interface{}{}
+	leaf := func(first bool) (*c05Node, string) {
+		var v c05Val
+		switch x := r.Intn(12); {
+		case first && x < 3:
+			v = c05Val{kind: 's', s: c05Strings[r.Intn(len(c05Strings))]}
+		case first && x < 7:
+			v = c05Val{kind: 'f', f: []float64{0.1, 0.3, 1e16, 9007199254740992, 9007199254740993, -9007199254740992, 1e-7, 2.5, 4.5e15, 1e21}[r.Intn(10)]}
+		case x < 9:
+			v = c05Val{kind: 'i', i: int64(r.Intn(5000))}
+		case x < 10:
+			v = c05Val{kind: 'i', i: c05Ints[r.Intn(len(c05Ints))]}
+		case x < 11:
+			v = c05Val{kind: 'f', f: c05Floats[r.Intn(len(c05Floats))]}
+		default:
+			v = c05Val{kind: 'i', i: int64(r.Uint64() >> uint(r.Intn(64)))}
+		}
+		n := &c05Node{leaf: v}
+		lit, ok := v.literal()
+		if !ok || (first && r.Intn(3) == 0) || strings.HasPrefix(lit, "-") {
+			n.name = "v" + strconv.Itoa(len(defs))
+			defs[n.name] = v.goValue()
+			return n, n.name
+		}
+		return n, lit
+	}
+	ops := []string{"+", "-"}
+	if r.Intn(4) == 0 {
+		ops = []string{"*", "/", "%"}
+	}
+	if r.Intn(8) == 0 {
+		ops = []string{"&"}
+	}
+	t, src := leaf(true)
+	for n := 2 + r.Intn(3); n > 0; n-- {
+		op := ops[r.Intn(len(ops))]
+		rn, rs := leaf(false)
+		t = &c05Node{op: op, l: t, r: rn}
+		src += " " + op + " " + rs
+	}
+	want, ok := t.eval()
+	if !ok || len(want.v.s) > 1<<16 {
+		c.Excluded("chain-outside-stated-domain")
+		return
+	}
+	c05Check(c, e, src, want, "chain", defs)
+	c.Tag("chain")
+	if k < len(c05ChainFixed) && c.Index == 0 {
+		c05ChainFixedCheck(c, e, c05ChainFixed[k])
+	}
+}
+
+// the fixed chains are written out; their reference is the parenthesised left fold
+func c05ChainFixedCheck(c *wk.Case, e *env.Env, src string) {
+	toks := strings.Fields(src)
+	grouped := toks[0]
+	for i := 1; i+1 < len(toks); i += 2 {
+		grouped = "(" + grouped + " " + toks[i] + " " + toks[i+1] + ")"
+	}
+	a, b := ank.Exec(e, src), ank.Exec(e, grouped)
+	c.Begin(map[string]interface{}{"src": src})
+	c.Eval("fixedchain"+src, true)
+	c.Events(2)
+	if a.Panicked || b.Panicked || ank.ErrText(a.Err) != ank.ErrText(b.Err) || ank.Render(a.Val) != ank.Render(b.Val) {
+		c.Violation("value:chain", fmt.Sprintf("%s gives %s (%s), its left fold %s gives %s (%s)", src, ank.Render(a.Val), ank.ErrText(a.Err), grouped, ank.Render(b.Val), ank.ErrText(b.Err)), map[string]interface{}{"src": src, "grouped": grouped})
+	}
+}
+
+const c05ConcScript = `
+for i = 0; i < n; i++ {
+  chk(0, i, b + i * 256)
+  chk(1, i, (b + i) * 2 - i)
+  chk(2, i, (b | i) << 1)
+  chk(3, i, -(b + i))
+  chk(4, i, (b + i) % 1000003)
+  chk(5, i, ^(b - i))
+  chk(6, i, (b * 4096 + i) >> 3)
+  chk(7, i, (b & 1048575) + i + 5000)
+}
+`
+
+func c05ConcNative(k int, i, b int64) int64 {
+	switch k {
+	case 0:
+		return b + i*256
+	case 1:
+		return (b+i)*2 - i
+	case 2:
+		return (b | i) << 1
+	case 3:
+		return -(b + i)
+	case 4:
+		return (b + i) % 1000003
+	case 5:
+		return ^(b - i)
+	case 6:
+		return (b*4096 + i) >> 3
+	default:
+		return (b & 1048575) + i + 5000
+	}
+}
+
+// c05Concurrent: arithmetic results do not depend on what other interpreters in
+// the process compute at the same time.
+func c05Concurrent(c *wk.Case) {
+	const workers = 8
+	n := int64(300 + c.Rng.Intn(700))
+	base := 5000 + int64(c.Rng.Intn(1<<20))
+	input := map[string]interface{}{"script": c05ConcScript, "n": n, "base": base, "workers": workers}
+	c.Begin(input)
+	var mu sync.Mutex
+	var bad []string
+	var events int64
+	var wg sync.WaitGroup
+	start := make(chan struct{})
+	outs := make([]ank.Out, workers)
+	for g := 0; g < workers; g++ {
+		wg.Add(1)
+		go func(g int) {
+			defer wg.Done()
+			b := base + int64(g)*256*4096
+			e := ank.NewCoreEnv()
+			e.Define("n", n)
+			e.Define("b", b)
+			e.Define("chk", func(k, i, v int64) {
+				atomic.AddInt64(&events, 1)
+				if want := c05ConcNative(int(k), i, b); v != want {
+					mu.Lock()
+					if len(bad) < 5 {
+						bad = append(bad, fmt.Sprintf("interpreter %d (b=%d): formula %d at i=%d gave %d, native %d", g, b, k, i, v, want))
+					}
+					mu.Unlock()
+				}
+			})
+			<-start
+			outs[g] = ank.Exec(e, c05ConcScript)
+		}(g)
+	}
+	close(start)
+	wg.Wait()
+	c.Eval(fmt.Sprintf("conc:%d:%d", n, base), true)
+	c.Events(int(events))
+	c.Tag("concurrent-interpreters")
+	for g, o := range outs {
+		if o.Panicked || o.Err != nil {
+			c.Violation("error:concurrent", fmt.Sprintf("interpreter %d: %s %s", g, ank.ErrText(o.Err), o.PanicVal), input)
+			return
+		}
+	}
+	if len(bad) > 0 {
+		c.Violation("value:concurrent", strings.Join(bad, "; "), input)
+	}
 }
